@@ -146,6 +146,18 @@ def punct_elem(prog, tix):
     return None
 
 
+def site_weight(prog, body):
+    """how many places of the derive a member-iteration site stands for: 1, or the number of callers when the site sits in a private helper that
+    several emitters share (consolidating duplicated iteration code must not make a rule look vacuous)"""
+    from ..lib import who
+    root = prog.fns.get(body.path, {}).get("root") or body.path
+    f = prog.fns.get(root, {})
+    if f.get("vis") == "pub" and "::utils::" not in mir.strip_generics(root):
+        return 1
+    cs = who.callers(prog).get(mir.strip_generics(root), set())
+    return max(1, len(cs)) if "::utils::" in mir.strip_generics(root) else 1
+
+
 def member_iteration_sites(prog):
     """Every place where the derive starts iterating the declaration's fields or variants:
     calls of iter()/into_iter() on a Punctuated<syn::Field|syn::Variant, _>.
@@ -275,6 +287,16 @@ def is_skip_filter(prog, consumer, body=None, site=None):
     if consumer is None and body is not None and site is not None:
         ok, why, _ = skip_guard_in_loop(prog, body, site)
         return ok, why
+    if consumer is not None and consumer[0] == "call" and consumer[1]["name"].startswith(D) and len(consumer[2]) == 1:
+        # `utils::unskipped_fields(fields)`: a private helper that returns `<its argument>.iter().filter(p)` is that filter
+        cands = [p_ for p_ in prog._bodies_raw if mir.strip_generics(p_) == consumer[1]["name"]]
+        hb = prog.body(cands[0]) if len(cands) == 1 else None
+        if hb is not None and hb.arg_count == 1:
+            rt = unref(hb.return_term())
+            if is_call(rt, "core::iter::traits::iterator::Iterator::filter", nargs=2):
+                src = paths.access_path(hb, rt[2][0])
+                if src is not None and src[0] == ("arg", 1, hb.names.get(1)):
+                    return is_skip_filter(prog, rt)
     if consumer is None or not is_call(consumer, "core::iter::traits::iterator::Iterator::filter", nargs=2):
         return False, "iterator is consumed by %s, not by filter(!should_skip)" % (consumer[1]["name"] if consumer else "<nothing / a loop>")
     cl, ups = mir.closure_of(consumer[2][1])
